@@ -13,7 +13,7 @@ RULE = (
     "Himmelblau(+normalised), Rastrigin(+normalised, dimension 1..4, k), Cexample, Perturbed_Garland/DoubleSine with a seeded "
     "offset) x a point of its documented box drawn from a mixture: arbitrary floats, box end points, structured special points "
     "(maximisers, Garland cusps k*pi/60, DoubleSine tmax +- 2^-j, DifficultFunc 0.5 +- e^-m, log-scale neighbourhoods of 0) and "
-    "their +-8-ulp / +-10^-e neighbours, as float / int / np.float64, with Hypothesis target(f(x)-fmax) steering the search; "
+    "their +-8-ulp / +-10^-e neighbours, as a list of float / int / np.float64 or as a 1-D float NumPy array, with Hypothesis target(f(x)-fmax) steering the search; "
     "oracle: f(x) finite real, f(x) <= fmax (zero tolerance except Ackley: 8 ulp of 22.7), evaluation pure (twice, after other "
     "objectives and RNG reseeding, on a second instance that evaluated other points / other dimensions first, input not mutated); subcheck 'attain': fmax - f(x*) <= 1e-12 at the documented maximisers "
     "(Garland: f(pi/6) > 1 - 0.003); subcheck 'dimension': wrong-length points raise ValueError. non-trivial = the point is "
